@@ -36,7 +36,7 @@ _e("C03", "reference-model monitor (independent min-plus closure and exact-hop t
    "every distance routine is compared entry by entry with an independent Floyd-Warshall closure; hop counts must be the "
    "hop count of some minimum-length path (exact-hop Bellman-Ford table); reachability flags, zero diagonals, charpath / "
    "efficiency_bin / efficiency_wei / rout_efficiency against mean and mean inverse distance; exact arithmetic on "
-   "integer, dyadic and near-tie lengths")
+   "integer, dyadic and near-tie lengths; integer-dtype copies of integer lengths must give the float64 result")
 _e("C08", "reference-model monitor (brute-force shortest-path counting) on exhaustive small graphs",
    "node and edge betweenness against sigma(s,t|v)/sigma(s,t) counted by brute force on an independent closure; node "
    "vector of the edge routines; sum identities on binary graphs; exact ties, near-ties (1e-6 apart) and unreachable pairs")
@@ -49,7 +49,7 @@ _e("C10", "metamorphic pair monitor (sibling routines on the same matrix)",
    "external oracle is run")
 _e("C12", "runtime post-condition monitor: edge-by-edge validation of every returned path",
    "retrieve_shortest_path for ALL ordered pairs of every matrix and transform, navigation_wu paths against L and D, "
-   "failed navigations, diagonal, success ratio")
+   "failed navigations, diagonal, success ratio; integer lengths also as int64 / int32 arrays with and without 'inv'")
 _e("C15", "reference-model monitor (subset enumeration and independent one-node peeling)",
    "k-core / s-core matrices and sizes for every k (s on a grid containing the exact occurring strengths), nestedness, "
    "coreness vectors and core sizes, peel order/level validity")
@@ -59,7 +59,7 @@ _e("C16", "reference-model monitor (BFS components) with edge-order adversaries"
 _e("C17", "runtime post-condition monitor with exact-rational expected counts",
    "threshold_proportional for every p=j/64 (p x N exactly representable, round-half-up demanded strictly), strongest "
    "kept, values unchanged, symmetry, diagonal; threshold_absolute at and between occurring weights; binarize / "
-   "normalize / invert (and its involution) / weight_conversion dispatch; copy=True / copy=False object semantics")
+   "normalize / invert (and its involution) / weight_conversion dispatch, also on integer-dtype counts with copy=True; copy=True / copy=False object semantics")
 _e("C02", "runtime post-condition monitor with an independent modularity oracle, injected node-visiting schedules",
    "labels exactly 1..k and returned q equal to the modularity recomputed from the definition (every objective, qtype and "
    "gamma) for the returned partition, level by level for hierarchical output; given-partition routines must score that "
@@ -77,7 +77,7 @@ _e("C18", "residual monitor: defining equations evaluated on the returned arrays
    "first-passage equation off the diagonal on connected / strongly connected / periodic chains, diffusion efficiency "
    "against 1/MFPT, PageRank fixed point / positivity / unit sum over d and falff, subgraph centrality against "
    "diag(expm(A)), eigenvector centrality as a non-negative unit eigenvector of lambda_max under label shuffles of "
-   "degenerate graphs, walk counts against integer matrix powers")
+   "degenerate graphs, walk counts against integer matrix powers (bool / small-integer adjacency included); PageRank positive with unit sum on networks with dangling nodes")
 _e("C19", "runtime post-condition monitor + offline checker over the recorded random history (SpyRandomState draw log)",
    "observed adjacency against scipy t statistics and BFS components, component labels 1..C, p-values against the "
    "returned null, and every null value recomputed by replaying the k relabellings actually drawn; metamorphic swaps "
@@ -90,7 +90,7 @@ _e("C05", "universal runtime contract on numpy's / python's global generator sta
    "every seeded depth-0 call in every workload is bracketed by a bit-exact comparison of the global generator states; "
    "per seedable function: same seed twice, integer seed vs RandomState(seed) vs Spy(seed), unseeded result as a function "
    "of the global state under interposed histories; thorough: identical digests across fresh processes with different "
-   "PYTHONHASHSEED and the multiprocessing NBS variant")
+   "PYTHONHASHSEED and the multiprocessing NBS variant; inputs include networks with exactly tied candidate moves and multi-pass consensus")
 _e("C13", "universal runtime contract: deep pre-call snapshot of every ndarray argument compared after return or raise",
    "dedicated call recipes for every array-taking public function over argument classes able to show an in-place edit "
    "(nonzero diagonal, signed, float32 / int64 / bool, Fortran order, non-contiguous views, canonical and arbitrary "
